@@ -97,7 +97,9 @@ pub fn oracles(v: &View, stats: &mut Stats) -> Vec<Record> {
                     }
                 },
                 Phase::Parked => {
-                    let ok = matches!(&after.collision, Some(Pk::Publish { payload, .. }) if payload == &l.pid);
+                    // parked in the state, or (after clean()) carried over like everything else
+                    let ok = matches!(&after.collision, Some(Pk::Publish { payload, .. }) if payload == &l.pid)
+                        || v.pending.iter().any(|p| matches!(p, Pk::Publish { payload, .. } if payload == &l.pid));
                     if !ok {
                         out.push(
                             v.tag(Record::new(
